@@ -78,13 +78,23 @@ def evaluate(ctx, checks, kind, sample, runner, st, info0):
     wa, err = safe_walk(kind, st.after)
     st.wafter, st.walk_err = wa, err
     if wa is None:
-        _v(ctx, "C03", checks, "file structurally invalid after %s: %s" % (st.op, err.split(":")[0] + ":" + err.split(":", 1)[1][:60] if ":" in err else err),
-           kind, sample, runner, {"walker": err})
+        short = err.split(":")[0] + ":" + err.split(":", 1)[1][:60] if ":" in err else err
+        _v(ctx, "C03", checks, "file structurally invalid after %s: %s" % (st.op, short), kind, sample, runner, {"walker": err})
+        # the other whole-file properties presuppose a file the independent reader can walk
+        if st.op in ("save", "fresh"):
+            _v(ctx, "C01", checks, "saved bytes do not decode under the independent reader (%s)" % short, kind, sample, runner, {"walker": err})
+            if kind.padding and st.cb:
+                _v(ctx, "C09", checks, "padding of the saved file cannot be located: the tag region is not followed by the audio/foreign data (%s)" % short,
+                   kind, sample, runner, {"walker": err, "returned": st.cb[0][2]})
+        if st.op in ("save", "fresh", "delete", "moddelete"):
+            _v(ctx, "C02", checks, "foreign/audio data cannot be located after %s (%s)" % (st.op, short), kind, sample, runner, {"walker": err})
+        if st.op in ("delete", "moddelete"):
+            _v(ctx, "C08", checks, "file cannot be walked after delete (%s)" % short, kind, sample, runner, {"walker": err})
         return False
     changed = st.after != st.before
     if st.op in ("save", "fresh", "delete", "moddelete"):
         # ---- C02
-        msg = foreign_preserved(kind, wb, wa)
+        msg = foreign_preserved(kind, wb, wa, deleteid3=(st.v1 == "deleteid3"))
         if msg:
             _v(ctx, "C02", checks, "foreign/audio data altered by %s: %s" % (st.op, msg.split("(")[0].strip()), kind, sample, runner, {"detail": msg})
         # ---- C03 info
@@ -315,6 +325,9 @@ def c07_scenario(ctx, checks, kind, sample, data):
         o2 = kind.open(io.BytesIO(d2))
         b = io.BytesIO(d2); o2.save(b); d3 = b.getvalue()
     except mutagen.MutagenError as e:
+        return
+    except Exception as e:
+        v("load/save of an unmodified well-formed file raised %s" % type(e).__name__, {"error": str(e)[:120]})
         return
     ctx.count("c07:scenario")
     w1, err = safe_walk(kind, d1)
